@@ -143,8 +143,9 @@ def decoder_narrowing(prog, chk, rid):
         if f.body is None or f.is_pattern or not prog.in_repo(f.file):
             continue
         casts = []
+        lengths = []
 
-        def visit(n, facts, _f=None, casts=casts):
+        def visit(n, facts, _f=None, casts=casts, lengths=lengths):
             k = n.get('kind')
             if k not in ('CXXStaticCastExpr', 'CStyleCastExpr', 'CXXFunctionalCastExpr', 'ImplicitCastExpr'):
                 return
@@ -160,8 +161,18 @@ def decoder_narrowing(prog, chk, rid):
             p = guards.canon(src)
             if p is None or not p.startswith('#'):
                 return          # not a plain variable: arithmetic results are judged by C05 D2 / C15 U6
+            if db >= 32 and _is_container_length(f, src):
+                lengths.append((n, p, n.get('dtype') or n.get('type')))
+                return
             casts.append((n, p, n.get('dtype') or n.get('type'), set(facts)))
         guards.walk_with_facts(f, visit)
+        for n, p, ty in lengths:
+            # not a number read from the blob but the length of a buffer in memory (or a difference of lengths and
+            # constants): it fits 32 bits by the size assumption of the property
+            chk.assume('buffers are smaller than 2^31 bytes (SQLite limits a blob to 10^9 bytes)')
+            chk.analysed(f)
+            chk.ok(rid, '%s: %s -> %s (the length of a buffer in memory, not a stored number)' % (
+                f.qualname.replace('djinterop::engine::', ''), p.split(':', 1)[1], ty), locstr(n))
         for n, p, ty, facts in casts:
             n_inst += 1
             chk.analysed(f)
@@ -183,6 +194,43 @@ def decoder_narrowing(prog, chk, rid):
     if n_inst == 0:
         raise AnalysisBroken('L7: no narrowing conversion found in any decoder (the beat index is narrowed to int '
                              'by construction of the public type)')
+
+
+def _is_container_length(f, e, depth=0):
+    """Is the value of e nothing but lengths of standard containers (`v.size()`, `s.length()`), integer literals
+    and sums / differences of them, possibly through locals of f every definition of which is of that kind?"""
+    e = strip(e, explicit=True)
+    k = e.get('kind')
+    if k == 'IntegerLiteral':
+        return True
+    if k == 'CXXMemberCallExpr':
+        callee = strip(children(e)[0])
+        recv = strip(children(callee)[0], explicit=True) if children(callee) else {}
+        return callee.get('name') in ('size', 'length') and len(children(e)) == 1 and \
+            'std::' in (recv.get('type') or '')
+    if k == 'BinaryOperator' and e.get('opcode') in ('+', '-'):
+        return all(_is_container_length(f, c, depth) for c in children(e))
+    if k == 'DeclRefExpr' and depth < 4:
+        ref = e.get('referencedDecl') or {}
+        if ref.get('kind') != 'VarDecl':
+            return False
+        defs = []
+        for x in walk(f.body):
+            if x.get('kind') == 'VarDecl' and x.get('id') == ref.get('id'):
+                init = [y for y in children(x) if not y['kind'].endswith('Attr')]
+                if not init:
+                    return False
+                defs.append(init[-1])
+            elif x.get('kind') in ('BinaryOperator', 'CompoundAssignOperator', 'UnaryOperator') and \
+                    ((x.get('opcode') or '').endswith('=') and x.get('opcode') not in ('==', '!=', '<=', '>=')
+                     or x.get('opcode') in ('++', '--')):
+                l = strip(children(x)[0], explicit=True)
+                if l.get('kind') == 'DeclRefExpr' and (l.get('referencedDecl') or {}).get('id') == ref.get('id'):
+                    if x.get('kind') != 'BinaryOperator':
+                        return False
+                    defs.append(children(x)[1])
+        return bool(defs) and all(_is_container_length(f, d, depth + 1) for d in defs)
+    return False
 
 
 def _columns(prog, chk, spec):
@@ -303,22 +351,30 @@ def _framing(prog, chk, L4):
                                   'length at offset 0' % (nm, '' if at_start else ' at a non-zero offset'))
     # where the deflate stream is read from: the cursor handed to the z_stream (strm.next_in = cursor), by
     # its initial value `input.data() + K` / `&input[K]`
+    # ... or of the expression stored there itself when the stream is handed the address directly
+    # (`strm.next_in = input.data() + K`, the whole input before the loop)
+    from . import c05
     cursors = []
+    direct = []
     for n in walk(zu.body):
         if n.get('kind') == 'BinaryOperator' and n.get('opcode') == '=':
             l = strip(children(n)[0], explicit=True)
             if l.get('kind') == 'MemberExpr' and l.get('name') == 'next_in':
+                named = False
                 for x in walk(children(n)[1]):
                     if x.get('kind') == 'DeclRefExpr' and (x.get('referencedDecl') or {}).get('kind') == 'VarDecl' \
                             and '*' in (x.get('type') or ''):
                         d = zu.tu.ids.get(x['referencedDecl']['id'])
+                        named = True
                         if d is not None and d not in cursors:
                             cursors.append(d)
-    if len(cursors) != 1:
+                if not named and not c05._is_null(children(n)[1]):
+                    direct.append(children(n)[1])
+    if len(cursors) + len(direct) != 1:
         raise AnalysisBroken('zlib_uncompress: the input cursor handed to the z_stream was not found (%d candidates)'
-                             % len(cursors))
-    for n in cursors:
-        init = [x for x in children(n) if not x['kind'].endswith('Attr')]
+                             % (len(cursors) + len(direct)))
+    for n in cursors + direct:
+        init = [n] if n in direct else [x for x in children(n) if not x['kind'].endswith('Attr')]
         if init:
             e = strip(init[-1], explicit=True)
             off = None
@@ -340,8 +396,10 @@ def _framing(prog, chk, L4):
     _deflate_complete(prog, chk, L4, zc)
     _pending_output(prog, chk, L4, zc, 'deflate')
     _pending_output(prog, chk, L4, zu, 'inflate')
-    from . import c05
-    c05.benign_buf_error(prog, chk, L4, zu, *c05.zlib_loop(prog, zu))
+    loop = c05.zlib_loop(prog, zu)
+    c05.benign_buf_error(prog, chk, L4, zu, *loop)
+    if loop[2].get('whole'):
+        _whole_input_extent(prog, chk, L4, zu, loop)
     # every compressed codec goes through these two functions: checked per codec above (framing)
 
 
@@ -470,6 +528,13 @@ def _pending_output(prog, chk, L4, f, api):
     avail_out in {0, >0} x avail_in in {0, >0}.  Otherwise part of the stream is dropped."""
     from ..feval import Evaluator, UNKNOWN, Choice
     from . import c05
+    if api == 'inflate':
+        try:
+            loop = c05.zlib_loop(prog, f)
+        except AnalysisBroken:
+            loop = None         # not the whole-input form as far as can be told: the two-loop form below decides
+        if loop is not None and loop[2].get('whole'):
+            return _whole_input_output(prog, chk, L4, f, *loop)
     inner = None
     for n in walk(f.body):
         if n.get('kind') in ('DoStmt', 'WhileStmt'):
@@ -509,3 +574,243 @@ def _pending_output(prog, chk, L4, f, api):
                               inst + ': the loop runs again although no output is pending')
             else:
                 chk.unknown(L4, inst, 'loop condition depends on values outside the model')
+
+
+def _whole_input_extent(prog, chk, L4, zu, loop):
+    """Whole-input form: the one deflate stream is everything behind the prefix - the stream is handed
+    input.data() + 4 and input.size() - 4 bytes, for every input size at which the loop is reached (sizes
+    0 .. 6 and a large one are evaluated; a size below 4 must not reach the loop at all)."""
+    from ..feval import UNKNOWN
+    from . import c05
+    obody, ocond, vars_, sid, outer = loop
+    in_u = zu.params[0]['id']
+    bad = []
+    reached = 0
+    for size in (0, 1, 2, 3, 4, 5, 6, 1000):
+        ev, states, _ = c05.prefix_states(prog, zu, sid, outer, {in_u: size})
+        for st, env in states:
+            if st is not None:
+                continue
+            reached += 1
+            off = ev.binop('-', env.get(('member', sid, 'next_in'), UNKNOWN), c05.container_data(env, in_u))
+            n = env.get(('member', sid, 'avail_in'), UNKNOWN)
+            if not isinstance(off, int) or not isinstance(n, int):
+                chk.unknown(L4, 'zlib_uncompress', 'input of %d byte(s): what the stream is handed before the loop '
+                            '(next_in - input.data() = %r, avail_in = %r) is outside the model' % (size, off, n))
+                return
+            if off != 4 or n != size - 4:
+                bad.append('input of %d byte(s): the stream is handed offset %d and %d byte(s)' % (size, off, n))
+    if not reached:
+        raise AnalysisBroken('zlib_uncompress: no evaluated input size reaches the loop around inflate()')
+    if bad:
+        chk.violation(L4, 'zlib_uncompress|stream-extent', locstr(outer),
+                      'the deflate stream is everything from offset 4 to the end of the blob, but %s' % '; '.join(bad[:3]))
+    else:
+        chk.ok(L4, 'zlib_uncompress: the stream handed to inflate() is input[4 .. size) for every input size that '
+                   'reaches the loop', locstr(outer))
+
+
+def _whole_input_output(prog, chk, L4, f, obody, ocond, vars_, sid, outer):
+    """_pending_output for the form in which the stream has its whole input before a single loop around
+    inflate(): the loop runs again exactly while the output room came back used up, and every byte inflate()
+    wrote is part of the result - written in place into the returned vector (the room handed to the stream
+    starts where the bytes produced so far end and lies inside the vector, also after the vector was grown;
+    the final size is the number of bytes produced), or appended to it round by round."""
+    from ..feval import UNKNOWN
+    from . import c05
+    Z = c05.Z_CODES
+    where = locstr(outer)
+    name = f.name
+    for in_left in (0, 5):
+        res = c05._zlib_round(prog, f, obody, ocond, vars_, sid, Z['Z_OK'], True, exhausted=not in_left, in_left=in_left)
+        inst = '%s: loop after inflate() returned Z_OK with the output room used up, %s input left' % (
+            name, 'some' if in_left else 'no')
+        if res == {'continues'}:
+            chk.ok(L4, inst + ' -> runs again', where, site=inst)
+        elif 'continues' not in res:
+            chk.violation(L4, '%s|pending-output-dropped' % name, where,
+                          inst + ': the loop ends (%s) although more output is pending; the rest of the stream is '
+                          'silently dropped or the valid stream rejected (truncated payload)' % ','.join(sorted(res)))
+        else:
+            chk.unknown(L4, inst, 'whether the loop runs again depends on values outside the model (%s)' % sorted(res))
+    res = c05._zlib_round(prog, f, obody, ocond, vars_, sid, Z['Z_OK'], False, exhausted=True, in_left=0)
+    inst = '%s: loop after inflate() with output room left, no input left' % name
+    if 'continues' not in res:
+        chk.ok(L4, inst + ' -> ends', where, site=inst)
+    else:
+        chk.violation(L4, '%s|inner-spins' % name, where, inst + ': the loop runs again although no output is pending')
+
+    # ---- where the output goes -------------------------------------------------------------------------
+    vec = c05.vector_ids(f)
+    ev, states, post = c05.prefix_states(prog, f, sid, outer)
+    target = None
+    first = []
+    for st, env in states:
+        if st is not None:
+            continue
+        no = env.get(('member', sid, 'next_out'), UNKNOWN)
+        hit = [cid for cid in vec if isinstance(ev.binop('-', no, c05.container_data(env, cid)), int)]
+        first.append((env, no, hit))
+    if not first:
+        raise AnalysisBroken('%s: no evaluated path reaches the loop around inflate()' % name)
+    stores_in_loop = any(c05._stream_store(x, sid, ('next_out',)) for x in walk(obody))
+    if all(not hit for _, _, hit in first):
+        if stores_in_loop:
+            return _appended_output(prog, chk, L4, f, obody, ocond, vars_, sid, outer, vec, post)
+        raise AnalysisBroken('%s: where inflate() writes (next_out before the loop: %r) is neither the storage of a '
+                             'vector nor set in the loop: not modelled' % (name, first[0][1]))
+    targets = {tuple(hit) for _, _, hit in first}
+    if len(targets) != 1 or len(first[0][2]) != 1:
+        raise AnalysisBroken('%s: the output pointer before the loop does not name one vector on every path' % name)
+    target = first[0][2][0]
+    inst = '%s: inflate() writes in place into the vector the function returns, from its first byte, inside it' % name
+    problems = []
+    for env, no, _ in first:
+        off = ev.binop('-', no, c05.container_data(env, target))
+        room = env.get(('member', sid, 'avail_out'), UNKNOWN)
+        inside = ev.binop('<=', ev.binop('+', off, room), env.get(('size', target), UNKNOWN))
+        if off != 0:
+            problems.append('the first output byte goes to offset %r of the vector' % off)
+        elif inside is not True:
+            problems.append('the room handed to the stream (%r) is not known to lie inside the vector (size %r)' % (
+                room, env.get(('size', target), UNKNOWN)))
+    returned = _returned_ids(post)
+    if returned != {target}:
+        problems.append('the function does not return that vector on every path behind the loop')
+    if problems:
+        chk.violation(L4, '%s|output-window|first' % name, where, inst + ': ' + '; '.join(sorted(set(problems))))
+    else:
+        chk.ok(L4, inst, where, site=inst)
+
+    # invariant at the head of a round: 1000 bytes of vector, 300 produced so far, the stream is to write behind them
+    def start(e):
+        e.containers, e.track_output, e.inflate_entries, e.appends = vec, True, [], []
+        kept.append(e)
+    kept = []
+    base = c05.container_data({}, target)
+    inv = {('size', target): 1000, ('member', sid, 'next_out'): ev.binop('+', base, 300),
+           ('member', sid, 'avail_out'): 700, ('member', sid, 'total_out'): 300}
+    res, ends = c05._zlib_round(prog, f, obody, ocond, vars_, sid, Z['Z_OK'], True, exhausted=False, in_left=5,
+                                want_states=True, preset=inv, configure=start)
+    inst = '%s: after a round that used up the output room the next one writes behind the %s' % (name, 'bytes produced')
+    problems = []
+    for r, e in ends:
+        if r != 'continues':
+            continue
+        off = kept[-1].binop('-', e.get(('member', sid, 'next_out'), UNKNOWN), c05.container_data(e, target))
+        room = e.get(('member', sid, 'avail_out'), UNKNOWN)
+        size = e.get(('size', target), UNKNOWN)
+        if off != 1000:
+            problems.append('the output pointer is at %s, not at the storage of the vector + the 1000 bytes produced' % (
+                ('offset %d of the vector' % off) if isinstance(off, int) else
+                'an address that is not inside the vector as it is now (taken before the vector was grown?)'))
+        elif not (isinstance(room, int) and isinstance(size, int) and 0 < room <= size - off):
+            problems.append('the room handed to the stream (%r byte(s) at offset %r) does not lie inside the vector '
+                            '(size %r)' % (room, off, size))
+    if problems:
+        chk.violation(L4, '%s|output-window|next' % name, where,
+                      inst + ': ' + '; '.join(sorted(set(problems))) + ': part of the payload is overwritten, left out '
+                      'or written outside the result')
+    elif any(r == 'continues' for r, _ in ends):
+        chk.ok(L4, inst + ', inside the (grown) vector', where, site=inst)
+    # (no continuing round: reported above as pending output dropped)
+
+    # the end of the stream: what is returned is what was produced
+    inst = '%s: at the end of the stream the returned vector holds exactly the bytes inflate() produced' % name
+    problems = []
+    n_ret = n_exit = 0
+    for full in (False, True):
+        kept = []
+        res, ends = c05._zlib_round(prog, f, obody, ocond, vars_, sid, Z['Z_STREAM_END'], full, exhausted=True, in_left=0,
+                                    want_states=True, preset=inv, configure=start)
+        for r, e in ends:
+            if r != 'exits':
+                continue
+            n_exit += 1
+            produced = e.get(('member', sid, 'total_out'), UNKNOWN)
+            for st, e2 in kept[-1].exec({'kind': 'CompoundStmt', 'inner': post}, dict(e), ()):
+                if st is None or st.kind != 'return':
+                    continue
+                n_ret += 1
+                size = e2.get(('size', target), UNKNOWN)
+                if not isinstance(size, int) or not isinstance(produced, int):
+                    chk.unknown(L4, inst, 'the size of the returned vector (%r) or the number of bytes produced (%r) is '
+                                'outside the model' % (size, produced))
+                    return
+                if size != produced:
+                    problems.append('%d byte(s) were produced (output room %s) and the vector returned has %d' % (
+                        produced, 'used up' if full else 'left', size))
+    if problems:
+        chk.violation(L4, '%s|result-size' % name, where, inst + ': ' + '; '.join(sorted(set(problems))))
+    elif n_ret:
+        chk.ok(L4, inst + ' (output room left / used up)', where, site=inst)
+    elif n_exit:
+        chk.unknown(L4, inst, 'no evaluated path returns after Z_STREAM_END')
+    else:
+        chk.violation(L4, '%s|result-size|end of stream not left' % name, where,
+                      inst + ': the loop is not left when inflate() returns Z_STREAM_END, so the bytes produced are '
+                      'never returned')
+
+
+def _returned_ids(stmts):
+    """ids of the variables the return statements in stmts return (None for anything else)"""
+    out = set()
+    for st in stmts:
+        for x in walk(st):
+            if x.get('kind') == 'ReturnStmt':
+                e = strip(children(x)[0], explicit=True) if children(x) else {}
+                while e.get('kind') in ('CXXConstructExpr', 'MaterializeTemporaryExpr', 'CXXBindTemporaryExpr') and \
+                        len(children(e)) == 1:
+                    e = strip(children(e)[0], explicit=True)
+                out.add((e.get('referencedDecl') or {}).get('id') if e.get('kind') == 'DeclRefExpr' else None)
+    return out
+
+
+def _appended_output(prog, chk, L4, f, obody, ocond, vars_, sid, outer, vec, post):
+    """Whole-input form with a separate output buffer armed in the loop: every round that does not throw appends
+    to the returned vector exactly the bytes inflate() wrote in that round (taken from where it wrote them)."""
+    from ..feval import UNKNOWN
+    from . import c05
+    Z = c05.Z_CODES
+    where = locstr(outer)
+    name = f.name
+    returned = _returned_ids(post)
+    if len(returned) != 1 or None in returned or not (returned <= vec):
+        raise AnalysisBroken('%s: the function does not return one vector behind the loop: not modelled' % name)
+    target = list(returned)[0]
+    inst = '%s: every round appends to the returned vector the bytes inflate() wrote in it' % name
+    problems = []
+    rounds = 0
+    for cname, full in (('Z_OK', True), ('Z_OK', False), ('Z_STREAM_END', True), ('Z_STREAM_END', False)):
+        kept = []
+
+        def start(e):
+            e.containers, e.track_output, e.inflate_entries, e.appends = vec, True, [], []
+            kept.append(e)
+        res, ends = c05._zlib_round(prog, f, obody, ocond, vars_, sid, Z[cname], full, exhausted=not full,
+                                    in_left=5 if full else 0, want_states=True,
+                                    preset={('size', target): 1000, ('member', sid, 'total_out'): 1000}, configure=start)
+        e0 = kept[-1]
+        for r, e in ends:
+            if r == 'throw':
+                continue
+            rounds += 1
+            grown = e0.binop('-', e.get(('size', target), UNKNOWN), 1000)
+            wrote = e0.binop('-', e.get(('member', sid, 'total_out'), UNKNOWN), 1000)
+            if not isinstance(grown, int) or not isinstance(wrote, int):
+                chk.unknown(L4, inst, 'inflate returns %s: the growth of the result (%r) or the number of bytes written '
+                            '(%r) is outside the model' % (cname, grown, wrote))
+                return
+            src_ok = e0.inflate_entries and all(
+                a['container'] == target and a['at_end'] and a['source'] == e0.inflate_entries[-1][0] for a in e0.appends)
+            if grown != wrote:
+                problems.append('inflate returns %s with the output room %s: %d byte(s) written, the result grows by %d' % (
+                    cname, 'used up' if full else 'left', wrote, grown))
+            elif wrote and not src_ok:
+                problems.append('inflate returns %s: what is appended is not taken from where inflate() wrote' % cname)
+    if problems:
+        chk.violation(L4, '%s|pending-output-dropped|append' % name, where, inst + ': ' + '; '.join(problems[:3]))
+    elif rounds:
+        chk.ok(L4, inst, where, site=inst)
+    else:
+        chk.unknown(L4, inst, 'no evaluated round completes')
